@@ -1555,7 +1555,11 @@ impl VirtualFileSystem for Memfs {
         let path = {
             let mut guard = self.write_guard();
             let path = self._abs(&guard, path)?;
-            self._add(&mut guard, MemfsEntry::opts(path).file().build())?
+            let path = self._add(&mut guard, MemfsEntry::opts(path).file().build())?;
+            if !guard.contains_file(&path) {
+                return Err(PathError::is_not_file(&path).into());
+            }
+            path
         };
         self.chmod(&path, mode)?;
         Ok(path)
